@@ -167,6 +167,9 @@ func main() {
 		if err == nil && *replay == "" {
 			err = c01.RunConcurrent(res, *seed, thorough)
 		}
+		if err == nil && *replay == "" {
+			err = c01.PlainNextToEncoded(res)
+		}
 	case "C02":
 		res.Rule = "N concurrent blocked calls released in a chosen completion order: every permutation for N <= 3 (4 and 5: sampled in quick / all resp. 40 in thorough), random orders for N in 6..25; seed-driven delays at registration, write, lookup, delivery and delete; each call must return exactly its own token and be executed once; the client endpoint's hook trace is replayed through Jrpc.Corr; plus an HTTP server answering with foreign / mistyped / missing ids; distinct = (N, order)"
 		err = corr.Concurrent(d, res, *seed, thorough)
@@ -179,6 +182,9 @@ func main() {
 		}
 		if err == nil {
 			err = corr.Unencodable(res, *seed)
+		}
+		if err == nil {
+			err = corr.ErrorsOwn(res, *seed)
 		}
 	case "C03":
 		res.Rule = "fault kinds {FIN, RST, blackhole} x positions {before, inside header, mid-payload, before last byte, after} x directions x frame of a workload (calls, a notification, a retry-tagged call) x calls issued right after the strike / in the reconnect window / after recovery (x second fault, thorough); oracle: a call is lost iff it has not returned although a later probe round-tripped or the client was closed; the client endpoint's hook trace is replayed through Jrpc.Corr; distinct = (fault, position, direction, frame, timing)"
